@@ -255,7 +255,50 @@ struct RI {
     cancelled: Option<u64>,
 }
 
+/// "No limit" spelled as a huge limit_for_period: the limiter must be constructible and admit everybody.
+fn extreme_limit(which: &str, sseed: u64) -> Report {
+    let mut rng = Prng::new(sseed);
+    let l = *rng.pick(&[usize::MAX, usize::MAX / 2, usize::MAX - 1]);
+    let (win, wname) = *rng.pick(&[(WindowType::Fixed, "fixed"), (WindowType::SlidingLog, "log"), (WindowType::SlidingCounter, "counter")]);
+    let mut rep = Report::default();
+    let r = std::panic::catch_unwind(|| {
+        run_sim(sseed, |sim| {
+            let w = sim.w.clone();
+            let layer = RateLimiterLayer::builder().limit_for_period(l).refresh_period(Duration::from_millis(50)).timeout_duration(Duration::ZERO).window_type(win).build();
+            let svc = layer.layer(w.probe(1));
+            for i in 0..6u64 {
+                let req = Req::new(i + 1, 0, vec![Step::ok(Lat::Us(0))]);
+                let a = sim.actor(req.id, crate::actors::caller_linger(w.clone(), svc.clone(), req, false, crate::actors::Linger::No, map_err));
+                sim.start_at((i / 2) * 50_000, a);
+            }
+            sim.horizon = 1_000_000;
+        })
+    });
+    match r {
+        Err(_) => rep.violate(
+            format!("{which}:{wname}:panic-at-extreme-config"),
+            format!("rate limiter with limit_for_period={l}: {}", crate::sim::take_last_panic().unwrap_or_default()),
+        ),
+        Ok((w, _, ())) => {
+            let log = w.take_log();
+            let entered = log.iter().filter(|r| matches!(r.ev, Ev::InnerEnter { .. })).count();
+            if entered != 6 {
+                rep.violate(format!("{which}:{wname}:extreme-limit-not-admitted"), format!("rate limiter with limit_for_period={l}: {entered} of 6 calls were admitted"));
+            }
+            rep.log = log;
+        }
+    }
+    rep.nontrivial = true;
+    rep.sig = crate::prng::mix(l as u64, wname.len() as u64);
+    rep.count("extreme_limit_scenarios", 1);
+    rep.case = json!({"limit_for_period": l.to_string(), "window": wname});
+    rep
+}
+
 pub fn scenario(which: &str, sseed: u64, _tier: Tier) -> Report {
+    if sseed % 67 == 0 {
+        return extreme_limit(which, sseed);
+    }
     let mut rng = Prng::new(sseed);
     let cfg = gen(&mut rng);
     let (w, stats) = run(&cfg, rng.next());
